@@ -453,7 +453,7 @@ func (m *model) onTerminate(tc *terminateCall) {
 			}
 			if workerKeyOf(wk) == vw.Key && workerMatches(wk.id, tc.pattern) && vw.CurrentTask != nil {
 				if t := m.byOp[vw.CurrentTask.Operations[0].Name]; t != nil {
-					tc.waitsFor = append(tc.waitsFor, terminateWait{task: t, requeues: t.requeues})
+					tc.waitsFor = append(tc.waitsFor, terminateWait{task: t, requeues: t.requeues, workerKey: vw.QueueName + "\x00" + vw.Key, attempt: attemptKind(vw.CurrentTask.DesiredState)})
 				}
 			}
 		}
@@ -661,6 +661,7 @@ func (m *model) observe() {
 
 	m.checkOperatorState(snap)
 	m.checkLearnerOutcomes()
+	m.checkBackgroundBound(snap)
 	m.observeStreams(snap, now)
 	m.observeSyncs(snap, now)
 	m.observeTerminates()
@@ -1178,16 +1179,31 @@ func (m *model) expectationOf(t *taskModel) *execExpectation {
 func (m *model) observeTerminates() {
 	for _, tc := range m.w.terms {
 		m.w.mu.Lock()
-		r := tc.returned
+		r, rerr := tc.returned, tc.err
 		m.w.mu.Unlock()
 		if r {
+			// ... and not before: a call that returned successfully
+			// promises that the matching workers are idle.
+			if rerr == nil && !tc.judged {
+				tc.judged = true
+				for _, tw := range tc.waitsFor {
+					if tw.task.final == nil && tw.task.requeues == tw.requeues && tw.task.prevStage == remoteexecution.ExecutionStage_EXECUTING &&
+						tw.task.prevQueue+"\x00"+tw.task.prevWorkerKey == tw.workerKey && tw.task.prevAttempt == tw.attempt {
+						m.w.failf("C06: TerminateWorkers(%v) issued in step %d returned successfully although task %s is still running on a matching worker", tc.pattern, tc.step, tw.task.actionID)
+					}
+				}
+				if len(tc.waitsFor) > 0 {
+					m.label("terminate_returned_after_tasks_left")
+				}
+			}
 			continue
 		}
 		// C06: TerminateWorkers returns once every task that was running
 		// on a matching worker has completed (or left that worker).
 		pending := false
 		for _, tw := range tc.waitsFor {
-			if tw.task.final == nil && tw.task.requeues == tw.requeues {
+			if tw.task.final == nil && tw.task.requeues == tw.requeues && tw.task.prevStage == remoteexecution.ExecutionStage_EXECUTING &&
+				tw.task.prevQueue+"\x00"+tw.task.prevWorkerKey == tw.workerKey && tw.task.prevAttempt == tw.attempt {
 				pending = true
 			}
 		}
@@ -1366,6 +1382,32 @@ func (m *model) checkLearnerOutcomes() {
 			m.label("learner_failed_matches")
 		default:
 			m.label("learner_abandoned_matches")
+		}
+	}
+}
+
+// checkBackgroundBound: C07 "background learning runs are bounded in
+// number": at no time more background runs are queued in a size class
+// queue than its platform queue is configured to allow (none if zero).
+func (m *model) checkBackgroundBound(snap *scheduler.VerifSnapshot) {
+	queued := map[string]int{}
+	for _, vt := range snap.Tasks {
+		if vt.Stage == remoteexecution.ExecutionStage_QUEUED && vt.DesiredState != nil && vt.DesiredState.Action != nil && attemptKind(vt.DesiredState) == "bg" {
+			queued[vt.QueueName]++
+		}
+	}
+	for qn, n := range queued {
+		limit := -1
+		for _, q := range m.w.cfg.Queues {
+			if strings.HasPrefix(qn, q.Prefix+"|"+platformString(q.Platform)+"|") {
+				limit = q.MaxBG
+			}
+		}
+		if limit >= 0 && n > limit {
+			m.w.failf("C07: %d background learning runs are queued in %s, but at most %d are allowed", n, qn, limit)
+		}
+		if n == limit && limit > 0 {
+			m.label("background_backlog_full")
 		}
 	}
 }
